@@ -379,6 +379,14 @@ Proof.
     apply assoc_In in Ha. destruct (Hedges _ _ _ Ha) as [_ (_ & _ & C0 & _)]. congruence.
 Qed.
 
+(* goto edges lead to registered states, and the automaton is not empty *)
+Theorem build_goto_lt aut : build g = Some aut -> 0 < length aut /\ forall q X q', goto aut q X = Some q' -> q' < length aut.
+Proof.
+  intros Hb. pose proof (build_loop_inv _ _ _ _ inv_init Hb) as (Hst0 & Hlen & Hker & Hedges).
+  split; [exact Hlen|]. intros q X q' Hg. unfold goto in Hg. apply assoc_In in Hg.
+  destruct (Hedges _ _ _ Hg) as [_ (A & _)]. exact A.
+Qed.
+
 End Inv.
 
 Print Assumptions build_structural.
